@@ -22,13 +22,58 @@ def userPrim : Prim → Bool
   | .connectOk | .connectFail => false
   | _ => true
 
-/-- admissibility of one step in a state: a local primitive is issued only at a quiescent point and
-only if PS3.8 defines its event for the provider's current state; the ARTIM timeout elapses only at
-a quiescent point; a PDU on the wire carries one of the seven PDU events (`Wire.pdu`'s documented
-domain — anything else is `Wire.invalid`).  Peer behaviour (any PDU, invalid PDUs, EOF), send
-failures and connect failures are otherwise unrestricted. -/
+/-- only P-DATA requests are pending on the local side -/
+def allPdata (q : List Prim) : Bool := q.all (· == .pdata)
+
+/-- an event queue that is empty or led by a terminating event: Evt16 (A-ABORT PDU) and Evt17 (transport
+connection closed) take the provider from Sta6/Sta8 to Sta1 and stop the reactor, so whatever is queued
+behind one of them is never dispatched -/
+def termLed : List Nat → Bool
+  | [] => true
+  | t :: _ => t == 16 || t == 17
+
+/-- the PDU at the head of `_recv_pdu` (the one the next PDU action consumes) has a decodable payload:
+DT-2 will not queue Evt19 for it -/
+def headDecodable : List (Nat × Bool) → Bool
+  | (_, true) :: _ => false
+  | _ => true
+
+/-- the auxiliary condition of a streamed P-DATA request on what the reactor has ALREADY queued: nothing is
+waiting in the event queue that will take the provider out of Sta6/Sta8 into Sta13 ahead of the request.
+Precisely: apart from the event of the iteration in progress (present only between phase A and phase B),
+the event queue is empty or led by a terminating event (`termLed`); and the event in progress is itself a
+terminating event, or the Evt9 of an earlier P-DATA request, or Evt12 (the peer's A-RELEASE-RQ: AR-2,
+Sta6 → Sta8, where Evt9 is AR-7), or Evt10 (a P-DATA-TF PDU: DT-2) whose payload is decodable.
+What this excludes (with Sta6): a queued Evt19 (invalid PDU), Evt3/4/6/13 (A-ASSOCIATE-AC/RJ/RQ,
+A-RELEASE-RP PDU) or Evt10 with an undecodable payload — every one is AA-8 (or DT-2 followed by
+Evt19 → AA-8) and leaves the provider in Sta13, where Evt9 has no table entry
+(`C05_neg_stream_after_invalid_pdu_read`). -/
+def streamQ (s : St) : Bool :=
+  termLed s.eventQ ||
+  (s.phaseB &&
+    match s.eventQ with
+    | e :: r => termLed r && (e == 9 || e == 12 || (e == 10 && headDecodable s.recvPdu))
+    | [] => false)
+
+/-- a *streamed P-DATA request*: the DIMSE provider calls `dul.send_pdu(P-DATA)` back to back without
+waiting for the reactor — at any moment (any phase of an iteration, events queued, PDUs in the inbox) —
+while the provider is in Sta6 and everything already pending on the local side is P-DATA too, and the
+reactor has not already queued an event that will take it to Sta13 (`streamQ`). -/
+def streamOk (s : St) (p : Prim) : Bool :=
+  p == .pdata && s.fsm == 6 && allPdata s.provQ && streamQ s
+
+/-- a primitive issued at a quiescent point, for which PS3.8 defines its event in the provider's state -/
+def quiescentOk (s : St) (p : Prim) : Bool :=
+  quiescent s && userPrim p && (Fsm.lookup Spec.Ps38.table p.event s.fsm).isSome
+
+/-- admissibility of one step in a state: a local primitive is issued either at a quiescent point and
+only if PS3.8 defines its event for the provider's current state (`quiescentOk`), or it is a streamed
+P-DATA request in Sta6 (`streamOk`); the ARTIM timeout elapses only at a quiescent point; a PDU on the
+wire carries one of the seven PDU events (`Wire.pdu`'s documented domain — anything else is
+`Wire.invalid`).  Peer behaviour (any PDU, invalid PDUs, EOF, at any time — also while P-DATA requests
+are pending), send failures and connect failures are otherwise unrestricted. -/
 def stepOk (s : St) : Step → Bool
-  | .env (.local p) => quiescent s && userPrim p && (Fsm.lookup Spec.Ps38.table p.event s.fsm).isSome
+  | .env (.local p) => quiescentOk s p || streamOk s p
   | .env .artimFire => quiescent s
   | .env (.peer w) => wireOk w
   | _ => true
@@ -36,6 +81,19 @@ def stepOk (s : St) : Step → Bool
 def runOk : St → List Step → Bool
   | _, [] => true
   | s, st :: rest => stepOk s st && runOk (step s st) rest
+
+/-- *synchronous* admissibility (the hypothesis before streaming was added, still the one of the
+two-sided C06 theorems): local primitives only at quiescent points — `stepOk` without the `streamOk`
+disjunct -/
+def stepOkSync (s : St) : Step → Bool
+  | .env (.local p) => quiescent s && userPrim p && (Fsm.lookup Spec.Ps38.table p.event s.fsm).isSome
+  | .env .artimFire => quiescent s
+  | .env (.peer w) => wireOk w
+  | _ => true
+
+def runOkSync : St → List Step → Bool
+  | _, [] => true
+  | s, st :: rest => stepOkSync s st && runOkSync (step s st) rest
 
 end Dul
 end PynetVerif
